@@ -41,7 +41,7 @@ def build_and_prove(run, thorough):
     if rc == 0: run.cov["discharged"] += 1
     else:
         run.proof_log = "Findings/C18.v (refutation witnesses) no longer compiles: " + out[-1500:]; ok = False
-    run.cov["findings_file"] = "coq/Findings/C18.v compiled: witnesses of 13 refuted statements decided by vm_compute" if rc == 0 else "coq/Findings/C18.v FAILED"
+    run.cov["findings_file"] = "coq/Findings/C18.v compiled: witnesses of 9 refuted statements (and the 4 repaired ones now passing) decided by vm_compute" if rc == 0 else "coq/Findings/C18.v FAILED"
     return ok
 
 
@@ -139,7 +139,7 @@ def correspondence(run, tasks, results, spec_rows, thorough):
     C.clean_cases("Cases_C18_")
     sh = {
         "srt": Shards("srt", "text * list Z * Z * list Z", ["srt_case"]),
-        "vtt": Shards("vtt", "text * list Z * Z * list Z", ["vtt_case", "vtt_case_fixed"]),
+        "vtt": Shards("vtt", "text * list Z * Z * list Z", ["vtt_case"]),
         "srtcur": Shards("srtcur", "Z * list Z * Z", ["srt_cursor_case", "srt_cursor_trigger_case"]),
         "vttcur": Shards("vttcur", "Z * list Z * Z", ["vtt_cursor_case", "vtt_cursor_trigger_case"]),
         "srtview": Shards("srtview", "text * list Z", ["srt_view_case"]),
@@ -280,12 +280,6 @@ def correspondence(run, tasks, results, spec_rows, thorough):
             for j, (_, b) in enumerate(ms):
                 bad_by_eval[j] += [ids[int(x)] for x in re.findall(r"\d+", b)]
         summary[kind] = dict(cases=n_cases, **{e: len(b) for e, b in zip(s.evals, bad_by_eval)})
-        if kind == "vtt" and len(bad_by_eval) == 2:
-            # variant models: the code must agree with one and the same variant on every case
-            faithful, repaired = bad_by_eval
-            if not faithful: summary["vtt_variant"] = "faithful (subtitle_text unbound until the first payload line)"; bad_by_eval = [[], []]
-            elif not repaired: summary["vtt_variant"] = "repaired (subtitle_text initialised): finding vtt-cue-without-payload no longer applies"; bad_by_eval = [[], []]
-            else: summary["vtt_variant"] = "neither"; bad_by_eval = [faithful, []]
         for e, b in zip(s.evals, bad_by_eval):
             if e == "spec_strict_case":
                 spec_bad = set(b); continue
